@@ -12,8 +12,11 @@ class RtSession:
     """One `rt play -` process; `send(op)` returns the result of the op."""
 
     def __init__(self, features=(), release=False, bin_name="rt"):
+        env = dict(os.environ)
+        # a story document whose global declarations never terminate must not hang the session
+        env.setdefault("VERIF_NEW_FUEL", "2000000")
         self.p = subprocess.Popen([common.rt_bin(features, release, bin_name), "play", "-"],
-                                  stdin=subprocess.PIPE, stdout=subprocess.PIPE, text=True, bufsize=1)
+                                  stdin=subprocess.PIPE, stdout=subprocess.PIPE, text=True, bufsize=1, env=env)
         self.ops = []
         self.results = []
 
@@ -66,8 +69,10 @@ def run_rt_script(ops, scratch, features=(), release=False, tag="r", timeout=300
         for op in ops:
             f.write(json.dumps(op, ensure_ascii=False) + "\n")
     try:
+        env = dict(os.environ)
+        env.setdefault("VERIF_NEW_FUEL", "2000000")
         r = subprocess.run([common.rt_bin(features, release), "play", path], capture_output=True, text=True,
-                           timeout=timeout)
+                           timeout=timeout, env=env)
         lines = r.stdout.split("\n")
     except subprocess.TimeoutExpired:
         lines = []
